@@ -185,10 +185,28 @@ func (e *Engine) verifyFunction(fn *ssa.Function, spec *FuncSpec, sweep bool) *F
 	} else {
 		if len(exits) > 1 {
 			// vacuity: every return must be reachable under the contract and the callee contracts used
-			for i, ex := range exits {
-				o := c.oblige("canary", fmt.Sprintf("path%d", i), ex.cond, "false", c.eng.posOf(fn.Pos()), "vacuity canary for one return path", nil)
+			// ordinal of each return statement in source order
+			var rets []*ssa.Return
+			for _, b := range fn.Blocks {
+				for _, in := range b.Instrs {
+					if r, ok := in.(*ssa.Return); ok {
+						rets = append(rets, r)
+					}
+				}
+			}
+			sort.SliceStable(rets, func(i, j int) bool { return rets[i].Pos() < rets[j].Pos() })
+			ord := map[*ssa.Return]int{}
+			for i, r := range rets {
+				ord[r] = i
+			}
+			for _, ex := range exits {
+				n := ord[ex.ret]
+				if spec != nil && spec.VacuousOK[n] != "" {
+					c.note(fmt.Sprintf("return#%d declared unreachable under the contract: %s", n, spec.VacuousOK[n]))
+					continue
+				}
+				o := c.oblige("canary", fmt.Sprintf("return#%d", n), ex.cond, "false", c.eng.posOf(ex.ret.Pos()), "vacuity canary for one return path", nil)
 				o.Canary = true
-				o.Mark = c.sc.mark()
 			}
 		}
 		c.atReturn(fr, c.mergeExits(fr, exits), 0, 1)
@@ -346,6 +364,10 @@ func (c *FnCtx) runGhostAt(bc *blockCtx, a Anchor) {
 			lbl = anchorString(a)
 		}
 		c.oblige("assert", lbl, bc.reach, t, as.C.Pos, as.C.Text, as.C.Props)
+		// cut rule: once proved, the asserted fact is available to everything that follows
+		if ta, err := env.evalAssume(as.C.E); err == nil {
+			c.sc.assert(sImp(bc.reach, ta))
+		}
 	}
 }
 
